@@ -74,6 +74,13 @@ CLAIMS["C04"] = {
     "technique": "static analysis: effect analysis of compile closures vs. declared dependency order, constant folding of layout formats vs. literals, sibling normal-form comparison",
 }
 
+CLAIMS["C11"] = {
+    "decides": "three-way agreement of feaLib: every statement class has a printer and either a build hook or an audited reason not to; every builder.X(...) call in ast.py resolves to a Builder method with fitting arity; every ast class the parser constructs exists; no call passes same-named arguments crosswise (prefix/suffix, value1/value2 ...); lookups are kept in an append-only list and numbered by enumeration, feature records come from a sort; the three chain-context subtable builders all reverse the backtrack sequence and glyph-class add_* methods flush pending glyphs before ranges; leading keywords printed by asFea are parser keywords; store-optimisation index maps are applied; no set order reaches numbering in feaLib/otlLib.",
+    "design_ref": "DESIGN.md §3.3 F9, §3.6 F21, §4 C11",
+    "note": "Trusted: resolver for self./module-level callees; audited NO_BUILD table. Not decided: that a compiled subtable matches what the rule text means (needs a shaper).",
+    "technique": "static analysis: registry/dispatch exhaustiveness across three modules, signature conformance of resolved calls, argument-name cross-check, sibling agreement",
+}
+
 _PENDING = "check not built yet in this round (planned structural clauses in DESIGN.md §4); not claimed until its check exists"
 NOT_APPLICABLE = {
     "C05": "numeric equality of outlines/advances with independent rasterisers at every location: runtime values only; no structural clause that is a necessary condition and survives refactoring (DESIGN §4 C05)",
@@ -81,5 +88,5 @@ NOT_APPLICABLE = {
     "C14": "geometric equality through pen adapters over all call sequences: adapters may legally buffer/merge/re-emit calls, so no forwarding-shape rule is both necessary and refactoring-stable (DESIGN §4 C14)",
     "C18": "rendering equivalence of merged fonts: only weak structural facts (first-writer-wins cmap guard) exist, not enough for a necessary-condition clause (DESIGN §4 C18)",
 }
-for _p in ("C10", "C11", "C12", "C13", "C19"):
+for _p in ("C10", "C12", "C13", "C19"):
     NOT_APPLICABLE[_p] = _PENDING
